@@ -1,4 +1,5 @@
 """C15 — sync options are honoured: dry_run writes nothing, deep compares content, exclude / selection, parallel."""
+import json
 import shutil
 
 from vlib import fsutil
@@ -34,7 +35,7 @@ RULE = (
     "conflict / an excluded or unselected source item / >=2 jobs to synchronise in parallel exists; distinct by case hash."
 )
 CLASSES = [
-    "dry_clone", "dry_copy_file", "dry_copytree", "dry_doc_flat", "dry_doc_nested", "dry_conflict", "dry_job_level",
+    "dry_into_remains_of_interrupted_job", "dry_bulk_stale_cache", "dry_clone", "dry_copy_file", "dry_copytree", "dry_doc_flat", "dry_doc_nested", "dry_conflict", "dry_job_level",
     "dry_new_job_job_level", "deep_job", "deep_project", "exclude_in_clone", "exclude_in_merge", "exclude_in_copytree",
     "selection_ids", "selection_jobs", "parallel_2", "parallel_true", "dry_mixed_type_typeerror",
 ]
@@ -49,7 +50,75 @@ ASSUMPTIONS = [
 ]
 
 
+def _run_special(case, ctx):
+    """Dry runs on pairs the pair grammar does not produce: (a) 'remains': a job-level dry run into a destination
+    directory left behind by an interrupted operation (data, no state point file); (b) 'bulk': project-level dry
+    run over more jobs than the cache-miss threshold with out-of-date persistent caches. Either way: the dry run
+    writes nothing -- both project directories (including .signac/) are byte-identical afterwards."""
+    import contextlib
+    import io
+    import os
+
+    import signac
+    from signac import sync
+
+    base = ctx.tmpdir("c15x")
+    mms = []
+    kind = case["special"]
+    try:
+        src = signac.init_project(os.path.join(base, "src"))
+        dst = signac.init_project(os.path.join(base, "dst"))
+        if kind == "remains":
+            spt = {"a": 0, "n": {"x": 1}}
+            js = src.open_job(spt).init()
+            fsutil.write_file(js.fn("f.txt"), b"source data")
+            if case.get("src_doc") is not None:
+                fsutil.write_file(js.fn("signac_job_document.json"), json.dumps(case["src_doc"]).encode())
+            jd = dst.open_job(spt)
+            fsutil.write_file(os.path.join(jd.path, "g.bin"), b"left by an interrupted clone")
+            if case.get("dst_doc") is not None:
+                fsutil.write_file(os.path.join(jd.path, "signac_job_document.json"), json.dumps(case["dst_doc"]).encode())
+            cl = ["dry_into_remains_of_interrupted_job"]
+        else:
+            n, cached = int(case.get("n", 513)), int(case.get("cached", 3))
+            for proj, has_cache in ((src, case.get("src_cache", True)), (dst, case.get("dst_cache", True))):
+                for i in range(n):
+                    proj.open_job({"i": i}).init()
+                    if has_cache and i == cached - 1:
+                        proj.update_cache()  # the persistent cache lists the first few jobs only
+            fsutil.write_file(src.open_job({"i": 0}).fn("f.txt"), b"to copy")
+            cl = ["dry_bulk_stale_cache"]
+        pre = sp.snap(src.path), sp.snap(dst.path)
+        s2, d2 = signac.Project(src.path), signac.Project(dst.path)
+        exc = None
+        try:
+            with contextlib.redirect_stdout(io.StringIO()):
+                if kind == "remains":
+                    if case.get("entry") == "sync_jobs":
+                        sync.sync_jobs(s2.open_job(spt), d2.open_job(spt), dry_run=True)
+                    else:
+                        d2.open_job(spt).sync(s2.open_job(spt), dry_run=True)
+                elif case.get("entry") == "Project.sync":
+                    d2.sync(s2, dry_run=True)
+                else:
+                    sync.sync_projects(s2, d2, dry_run=True)
+        except Exception as e:  # a refusal is fine, writing is not
+            exc = e
+        post = sp.snap(src.path), sp.snap(dst.path)
+        for name, a, b in (("source", pre[0], post[0]), ("destination", pre[1], post[1])):
+            d = _changed(a, b)
+            if d:
+                mms.append(Mismatch(
+                    "dry_src_changed" if name == "source" else "dry_files_created",
+                    f"dry run ({kind}, {case.get('entry', 'sync_projects')}, outcome {type(exc).__name__ if exc else 'returned'}) changed the {name} project: {fsutil.fmt_diff(d)}"))
+        return {"mismatches": mms, "classes": cl, "nontrivial": True}
+    finally:
+        shutil.rmtree(base, ignore_errors=True)
+
+
 def run_case(case, ctx):
+    if case.get("special"):
+        return _run_special(case, ctx)
     plan = sp.analyse(case)
     base, src_root, dst_root = sp.build_pair(ctx, plan, "c15")
     bases = [base]
@@ -299,8 +368,21 @@ for _par in (2, True):
     ]
 
 
+SPECIAL = [
+    {"special": "remains", "entry": "Job.sync", "src_doc": {"x": 1}, "dst_doc": None},
+    {"special": "remains", "entry": "sync_jobs", "src_doc": {"x": 1}, "dst_doc": {"y": 2}},
+    {"special": "remains", "entry": "Job.sync", "src_doc": None, "dst_doc": None},
+    {"special": "bulk", "entry": "sync_projects", "n": 513, "cached": 3},
+    {"special": "bulk", "entry": "Project.sync", "n": 520, "cached": 10, "dst_cache": False},
+    {"special": "bulk", "entry": "sync_projects", "n": 700, "cached": 150, "src_cache": False},
+]
+
+
 def run(ctx):
     if ctx.worker == 0:
         for c in CONSTRUCTED:
+            ctx.apply(c)
+    for i, c in enumerate(SPECIAL if ctx.tier != "quick" else SPECIAL[:5]):
+        if i % ctx.nworkers == ctx.worker:
             ctx.apply(c)
     drive(ctx, sp.pair_cases("c15"), 750 if ctx.tier == "quick" else 9000, ctx.apply)
